@@ -66,12 +66,16 @@ type Fn struct {
 	// the error result is declared as the concrete type *UserErr instead of error (only for
 	// functions whose every execution fails: a typed nil would count as a failure)
 	ErrConcrete bool `json:"err_concrete"`
+	// provide this (reflect.MakeFunc) constructor with dig.LocationForPC(pc of declared function
+	// P<loc_pool>): error messages and CallbackInfo.Name then speak of main.P<loc_pool>
+	LocPool *int `json:"loc_pool"`
 }
 
 type Nested struct {
-	Exec  int `json:"exec"`
-	Scope int `json:"scope"`
-	Fn    int `json:"fn"`
+	Exec  int    `json:"exec"`
+	Scope int    `json:"scope"`
+	Fn    int    `json:"fn"`
+	Op    string `json:"op"` // "" = invoke; "provide": the body registers constructor Fn in Scope
 }
 
 type Op struct {
@@ -516,16 +520,17 @@ func mkResult(r Result, decorator bool, fn, exec int, lens []int, slot *int) ref
 // ---------- running one case ----------
 
 type runner struct {
-	c        *Case
-	fns      map[int]*Fn
-	execs    map[int]int
-	events   []Event
-	advance  func(time.Duration)
-	scopes   []*dig.Scope
-	cont     *dig.Container
-	poolFn   map[int]*Fn
-	nested   func(scope, fn int)
-	poolRole map[int]string // declared function -> "dec" when registered through Decorate
+	c             *Case
+	fns           map[int]*Fn
+	execs         map[int]int
+	events        []Event
+	advance       func(time.Duration)
+	scopes        []*dig.Scope
+	cont          *dig.Container
+	poolFn        map[int]*Fn
+	nested        func(scope, fn int)
+	nestedProvide func(scope, fn int)
+	poolRole      map[int]string // declared function -> "dec" when registered through Decorate
 }
 
 func (r *runner) planAt(f *Fn, e int) string {
@@ -580,7 +585,11 @@ func (r *runner) body(f *Fn, role string, args []reflect.Value) []reflect.Value 
 		}
 		for _, n := range f.Nested {
 			if n.Exec == e && r.nested != nil {
-				r.nested(n.Scope, n.Fn)
+				if n.Op == "provide" {
+					r.nestedProvide(n.Scope, n.Fn)
+				} else {
+					r.nested(n.Scope, n.Fn)
+				}
 			}
 		}
 		if plan == "panic" {
